@@ -64,7 +64,13 @@ def _strip(e: ast.expr) -> ast.expr:
             return e
 
 
+#: obligations whose failure contradicts the property (rule, construct pattern, why); every other failure is 'not recognised'
+POSITIVE: list[tuple[str, str, str]] = [
+]
+
+
 def run(ctx: Ctx) -> None:
+    ctx.positive_table = list(POSITIVE)
     prog = ctx.prog
     ctx.rule('C08.R1', 'defining formulas: the right-hand side of each summary statistic, of the pairwise test, of t and p, of the three variance-covariance '
              'matrices, standard errors and correlations equals its defining formula (sympy normal form for the scalar formulas, structural match for the matrix ones)')
@@ -95,8 +101,9 @@ def run(ctx: Ctx) -> None:
             got = ToSympy(hook=hook)(e)
             ok = equal(got, want)
         except AnalysisError as ex:
-            got, ok = str(ex), False
-        ctx.add('C08.R1', target.replace('self.data.', 'stat:'), ok, (cs.file, s.lineno), f'{target.split(".")[-1]} = {got}' + ('' if ok else f'; the defining formula is {want}'), detail=str(got))
+            got, ok = str(ex), None  # the right-hand side is not arithmetic the translation understands
+        ctx.add('C08.R1', target.replace('self.data.', 'stat:'), ok, (cs.file, s.lineno), (f'{target.split(".")[-1]} = {got}' + ('' if ok else f'; the defining formula is {want}')) if ok is not None else
+                f'the right-hand side of {target.split(".")[-1]} is not in a form the formula translation understands: {got}', detail=str(got), positive=ok is False)
         if target in GUARD:
             # normal form of `x = f if g is not None else None`: if g is None: x = None / else: x = f
             encl = [n for n in walk_no_nested(cs.node) if isinstance(n, ast.If) and (s in n.body or s in n.orelse)]
@@ -191,7 +198,7 @@ else:
                 f'{FAMNAME[fam]} block: std err_i = sqrt(V_ii) and correlation = D^-1 V D^-1 of its own matrix' if ok
                 else (f'{FAMNAME[fam]} block is not the std-err / correlation block of its own matrix (matrices read: {sorted(reads)})' if ok is False
                       else f'shape not recognised - expected: std err_i = sqrt(V_ii) (max float when negative) for every parameter, correlation = D^-1 V D^-1, all from {sorted(own)[0]}'),
-                detail='' if ok else str(sorted(reads)))
+                detail='' if ok else str(sorted(reads)), positive=ok is False)
     B = prog.cls('results', 'Beta')
     for fam in FAMILIES:
         m = B.methods.get(f'set_{fam}std_err')
@@ -231,9 +238,14 @@ self.{fam}pValue = calc_p_value(self.{fam}tTest)
             vc = f'self.data.{fam}varCovar'
             cov, cor, tt, pp = elts[4 * k: 4 * k + 4]
             ok = cov == f'{vc}[{LI}, {LJ}]' and cor == f'self.data.{fam}correlation[{LI}, {LJ}]' and tdefs.get(tt) == ('test', vc, [LI, LJ]) and tdefs.get(pp) == ('p', tt, None)
-            ctx.add('C08.R2', f'secondOrderTable[{nfam * 4}]:{FAMNAME[fam]}', ok, (cs.file, w.lineno),
+            # a quantity of another family among the four entries of this family is a contradiction; another spelling is not
+            involved = ' '.join([cov, cor, str(tdefs.get(tt)), str(tdefs.get(pp))])
+            foreign = sorted({m_ for m_ in re.findall(r'self\.data\.(\w*?)(?:varCovar|correlation)', involved) if m_ != fam})
+            chain = tdefs.get(pp) is not None and tdefs.get(pp)[1] != tt and tdefs.get(pp)[1] in tdefs  # the p-value of another test
+            bad = bool(foreign) or chain
+            ctx.add('C08.R2', f'secondOrderTable[{nfam * 4}]:{FAMNAME[fam]}', ok if (ok or bad) else None, (cs.file, w.lineno),
                     f'entries {4 * k}..{4 * k + 3}: covariance, correlation, test and p-value of the {FAMNAME[fam]} matrix' if ok
-                    else f'entries {4 * k}..{4 * k + 3} = [{cov}, {cor}, {tt}<-{tdefs.get(tt)}, {pp}<-{tdefs.get(pp)}]', detail=f'{cov},{cor},{tdefs.get(tt)},{tdefs.get(pp)}')
+                    else (f'entries {4 * k}..{4 * k + 3} = [{cov}, {cor}, {tt}<-{tdefs.get(tt)}, {pp}<-{tdefs.get(pp)}]' + ('' if bad else ': not in the expected form')), detail=f'{cov},{cor},{tdefs.get(tt)},{tdefs.get(pp)}', positive=bad)
     ctx.floor('C08.R2', 12)
     # likelihood ratio test
     lr = prog.func('tools.likelihood_ratio', 'likelihood_ratio_test')
@@ -287,7 +299,10 @@ return biogeme.tools.likelihood_ratio.likelihood_ratio_test((_LU, _KU), (_LR, _K
             want = want.replace('b.', bv + '.', 1) if want else None
             ok = want is not None and unparse(v) == want
             n_lab += 1
-            ctx.add('C08.R3', f'get_estimated_parameters[{lab}]@{len([x for x in ctx.obligations if x.construct.startswith("get_estimated_parameters[" + lab + "]")])}', ok, (gp.file, k.lineno), f"'{lab}': {unparse(v)}" + ('' if ok else f'; the label names {want}'), f'{lab}:{unparse(v).replace(bv + ".", "b.")}')
+            # another attribute of the same parameter under this label is a contradiction; anything else is not understood
+            other = want is not None and not ok and re.fullmatch(rf'{re.escape(bv)}\.\w+', unparse(v)) is not None
+            ctx.add('C08.R3', f'get_estimated_parameters[{lab}]@{len([x for x in ctx.obligations if x.construct.startswith("get_estimated_parameters[" + lab + "]")])}', ok if (ok or other) else None, (gp.file, k.lineno),
+                    f"'{lab}': {unparse(v)}" + ('' if ok else (f'; the label names {want}' if other else ': the cell is not in the expected form (an attribute of the parameter)')), f'{lab}:{unparse(v).replace(bv + ".", "b.")}', positive=other)
     rowvar = None
     for n in ast.walk(rows[0]):
         if isinstance(n, ast.Assign) and isinstance(n.value, ast.Dict) and isinstance(n.targets[0], ast.Name):
@@ -301,7 +316,9 @@ return biogeme.tools.likelihood_ratio.likelihood_ratio_test((_LU, _KU), (_LR, _K
                 want = (PARAM_LABELS.get(lab.strip("'")) or '?').replace('b.', bv + '.', 1)
             ok = unparse(n.value) == want
             n_lab += 1
-            ctx.add('C08.R3', f'get_estimated_parameters[{lab[:30]}]', ok, (gp.file, n.lineno), f'{lab[:40]}: {unparse(n.value)}' + ('' if ok else f'; the label names {want}'), f'{lab}:{unparse(n.value).replace(bv + ".", "b.")}')
+            other = '?' not in want and not ok and re.fullmatch(rf'{re.escape(bv)}\.\w+', unparse(n.value)) is not None
+            ctx.add('C08.R3', f'get_estimated_parameters[{lab[:30]}]', ok if (ok or other) else None, (gp.file, n.lineno), f'{lab[:40]}: {unparse(n.value)}' + ('' if ok else (f'; the label names {want}' if other else ': label or cell not in the expected form')),
+                    f'{lab}:{unparse(n.value).replace(bv + ".", "b.")}', positive=other)
     ok = has(rows[0], f'_T.loc[{bv}.name] = pd.Series({rowvar})') and not any(isinstance(x, (ast.Continue, ast.Break)) for x in ast.walk(rows[0]))
     ctx.add('C08.R3', 'get_estimated_parameters:rows', ok, gp, 'one row per estimated parameter, indexed by its name' if ok else 'rows of the parameter table changed', 'rows')
     gc = BR.methods['get_correlation_results']
@@ -370,7 +387,9 @@ return biogeme.tools.likelihood_ratio.likelihood_ratio_test((_LU, _KU), (_LR, _K
                 tkey = unparse(n.targets[0].slice)
                 if (what == 'estimate row' and re.fullmatch(r'\(\w+\.name, \w+\)', tkey)) or (what != 'estimate row' and what.split()[0] in tkey):
                     got = unparse(n.value)
-        ctx.add('C08.R3', f'compile_estimation_results:{what}', ok, ce, f'{what} holds {attr[1:]}' if ok else f'{what} holds {got} (robust statistics are announced)', re.sub(r'^\w+\.', 'b.', got or ''))
+        other = not ok and got is not None and re.fullmatch(r'\w+\.\w+', got) is not None
+        ctx.add('C08.R3', f'compile_estimation_results:{what}', ok if (ok or other) else None, ce, f'{what} holds {attr[1:]}' if ok else (f'{what} holds {got} (robust statistics are announced)' if other else f'{what} of the compiled table is not in the expected form'),
+                re.sub(r'^\w+\.', 'b.', got or ''), positive=other)
     _PS = "_S = (f'({_B.robust_stdErr:.3g})' if include_robust_stderr else '') if _B.robust_stdErr is not None else __Q1\n"
     _PT = "_T = (f'({_B.robust_tTest:.3g})' if include_robust_ttest else '') if _B.robust_tTest is not None else __Q2\n"
     _PV = "_V = f'{_B.value:.3g} {_S} {_T}'"
